@@ -255,6 +255,27 @@ def lax_unique(V):
         V.check(same(y, origin(want)), 'lax:value:unique_items', lambda: '%r -> %r' % (x, y))
 
 
+UNHASHABLE = [[1], [1.0], [True], [2], {'a': 1, 'b': 2}, {'b': 2, 'a': 1}, {1, 2, 3}, {3, 2, 1}, {'a': 1}, 1, 1.0, True, '1', None]
+
+
+@ob('lax/unique_items-mixed', marks=['accept'], budget=(60, 200),
+    bounds='Rule[list](unique_items=Lax(True)), n <= 3 items picked from %d values: unhashable items that are equal but spelled differently '
+           '([1] / [1.0] / [True], dicts in two key orders, sets in two orders), and 1 / 1.0 / True / "1": the output keeps first occurrences, '
+           'has pairwise distinct (==) items, is a fixed point and passes the strict constraint' % len(UNHASHABLE))
+def lax_unique_mixed(V):
+    n = V.pick('n', [1, 2, 3])
+    x = [UNHASHABLE[V.pick('i%d' % i, list(range(len(UNHASHABLE))))] for i in range(n)]
+    T, Sx = lax_pair(list, 'unique_items', True)
+    y = lax_check(V, T, Sx, x, 'unique_items:mixed')
+    if y is not None:
+        want = []
+        for v in x:
+            if not any(v == w for w in want):
+                want.append(v)
+        V.check(len(y) == len(want) and all(a == b and type(a) is type(b) for a, b in zip(y, want)), 'lax:value:unique_items',
+                lambda: '%r -> %r' % (x, y))
+
+
 DECIMALS = ['0', '1', '1.5', '1.25', '12.345', '123.456', '0.001', '99.99', '9.995', '-1.005', '1E+2', '1E-3', '100', '1234.5']
 
 
